@@ -1,5 +1,5 @@
 (* Entry point for the extracted executable: decodes cases, runs the model. *)
-From CV Require Import Base.Bytes Base.Glob Supp.Defs Supp.ParseDefs Supp.PairDefs Supp.DispatchDefs.
+From CV Require Import Base.Bytes Base.Glob Supp.Defs Supp.ParseDefs Supp.PairDefs Supp.DispatchDefs Supp.InlineDefs.
 From CV Require Path.Defs.
 Local Open Scope N_scope.
 
@@ -218,6 +218,20 @@ Definition run (fields : list str) : list str :=
                 end
             end
         | _ => BAD
+        end
+      else if tag_is tag [105;110;108;105;110;101] then         (* "inline": n, (line iscomment text)* *)
+        let take_tok := fun (l : list str) =>
+          match l with
+          | ln :: c :: tx :: r => Some (mkTok (zd ln) (bool_of_str c) tx, r)
+          | _ => None
+          end in
+        let tcode := fun (t : stype) => match t with TUnique => [48] | TFile => [49] | TBlock => [50]
+                                                  | TBlockBegin => [51] | TBlockEnd => [52] | TMacro => [53] end in
+        match take_list take_tok args with
+        | Some (ts, _) => let '(l, bad) := inline_suppressions ts in
+                          dec_of_N bad :: flat_map (fun x => [is_id x; is_sym x; tcode (is_type x); dec_of_Z (is_line x);
+                                                              dec_of_Z (is_begin x); dec_of_Z (is_end x); str_of_bool (is_next x)]) l
+        | None => BAD
         end
       else BAD
   end.
